@@ -24,10 +24,24 @@ def body_decode(entry, L, split=None):
             lo, hi = split; M.add(z3.UGE(bs[0], lo)); M.add(z3.ULE(bs[0], hi))
         inp = InBuf(bs)
         def case(m, **kw): return dict(kw, what='decode', entry=entry, bytes=[m.eval(b, model_completion=True).as_long() for b in bs])
+        M.aux['alloc_requests'] = []
+        def alloc_cex():
+            # memory clause: no up-front request for more than 64 Ki + 4 Ki per input byte ELEMENTS (>= that many bytes; a compact prefix of k bytes can announce 2^(8k-2) elements)
+            for rq in M.aux['alloc_requests']:
+                if not z3.is_bv(rq): continue
+                rq64 = rq if rq.size() == 64 else z3.ZeroExt(64 - rq.size(), rq)
+                m = None
+                for thr in (1 << 28, 1 << 20, 65536 + 4096 * L):       # the largest feasible request makes the clearest counterexample
+                    m = M.model(z3.UGT(rq64, thr))
+                    if m is not None: break
+                if m is not None:
+                    M.emit('cex', **case(m, problem='allocation: room for %d elements requested up front from a %d-byte input' % (m.eval(rq64, model_completion=True).as_long(), L))); return True
+            return False
         try:
             r = M.run_fn(M.resolve('<%s as Decode>::decode' % ENTRIES[entry]), [Ref(Cell(inp))])
         except Panic as e:
             M.emit('cex', **case(M.model(), problem='panic: ' + str(e)[:160])); return
+        if alloc_cex(): return
         if is_variant(M, r, 1, 'decode.result'):
             M.emit('ok', outcome='err'); return
         val = payload(r, 0)[0]
@@ -148,6 +162,8 @@ def replay_case(ctx, case):
     a = nat.ask({'op': 'decode_bytes', 'entry': case['entry'], 'bytes': case['bytes']})
     if a.get('panic') or a.get('crashed'): return True, None
     if a.get('decoded') and not a.get('canonical'): return True, None
+    # memory clause: the largest single allocation request while decoding (tracking allocator of the replay binary; > 256 MiB aborts = crashed)
+    if str(case.get('problem', '')).startswith('allocation') and a.get('max_alloc', 0) > 65536 + 4096 * len(case['bytes']): return True, None
     return False, None
 
 
